@@ -175,8 +175,8 @@ theorem content_linkAll (ns : Dict Defn) (cs : Dict XLCell) (k : Text) :
 
 /-! ### `build_ranges` only appends empty placeholders -/
 
-/-- `XLCell(cell_address, '')`. -/
-def blank (a : Text) : XLCell := ⟨a, .str [], none, []⟩
+/-- `XLCell(cell_address, None)`. -/
+def blank (a : Text) : XLCell := ⟨a, .none, none, []⟩
 
 /-- the members of every area a formula of `fs` refers to. -/
 def areaMembers (fs : Dict XLFormula) : List Text :=
